@@ -48,6 +48,7 @@ type Scenario struct {
 	Client     ClientPlan `json:"client"`
 	Special    string     `json:"special,omitempty"` // "" | no-route | no-host
 	Warm       bool       `json:"warm,omitempty"`    // one plain exchange on the same client connection first
+	EmptyReply bool       `json:"empty_reply,omitempty"` // the upstreams' replies carry no body
 	// FilterDelayUs: a receive stream filter (phase after-choose-host) that takes this long and then continues: upstream
 	// events can arrive between host selection and the first byte of the request (0 = no such filter)
 	FilterDelayUs int `json:"filter_delay_us,omitempty"`
@@ -234,5 +235,9 @@ func genScenario(rt *rapid.T, i int) *Scenario {
 			sc.Client.AtUs = sc.GlobalMs*1000 + 1000*uni(rt, l("disc_at"), 10, 20)
 		}
 	}
+	// a fifth of the scenarios: the upstreams' replies have NO body (Content-Length: 0 / a bolt response without content);
+	// a reply without a body has to end the exchange like any other (drawn last: the earlier draws keep their meaning)
+	// (HTTP/1 only: the rig tells a bolt upstream's reply from a reply MOSN makes by the body)
+	sc.EmptyReply = pct(rt, l("empty_reply"), 20) && sc.Proto == "Http1"
 	return sc
 }
